@@ -324,6 +324,53 @@ def _worker(args):
                         if got != want:
                             fails.append(("crypto_pwhash%s_str_needs_rehash/%s/%s/string=t%d,m%d/request=t%d,m%dKiB+%d" % ("" if fi == 0 else "_" + typ, tag, typ, ts, ms, tr, mr, extra), "returned %d, want %d" % (got, want)))
     if cfg in ("", configs.NONE):
+        # "$7$" strings from other producers: every base-64 digit value 0..63 in the low three digit positions of the r and of the p field
+        # (built and hashed by the reference; N = 2 keeps them cheap) - the correct password must verify, another one must not, and
+        # needs_rehash must parse them (1: parameters differ from the requested ones; never -1).  needs_rehash only parses, so there every
+        # digit value is also placed in all five positions of both fields and in the N field.
+        st0 = pylib.buf(102)
+        own = None
+        if lib.crypto_pwhash_scryptsalsa208sha256_str(st0, pw8, ull(8), ull(32768), sz(16777216)) == 0:
+            own = ps.scrypt7_parse(st0.value)
+        salt_txt = ps.itoa64_encode_bytes(bytes(range(100, 132)))
+        def _sc_rehash_want(N_log2, r_, p_):
+            return 0 if (own is not None and (own["N_log2"], own["r"], own["p"]) == (N_log2, r_, p_)) else 1
+        for field in ("r", "p"):
+            for pos_ in range(3):
+                for dv in (range(1, 64) if pos_ < 2 else (1, 2, 31, 32, 62, 63)):
+                    val = dv << (6 * pos_)
+                    r_, p_ = (val, 1) if field == "r" else (1, val)
+                    setting = ps.scrypt7_encode(1, r_, p_, salt_txt, bytes(32))
+                    try:
+                        sref = ps.scrypt7_hash(pw8, setting[:setting.rindex("$")])
+                    except ps.ScryptTooBig:
+                        continue
+                    if sref is None or not ps.scrypt7_str_verify(sref, pw8): raise AssertionError("reference rejects its own scrypt string")
+                    buf2 = ctypes.create_string_buffer(sref.encode("latin-1"), 102)
+                    key = "crypto_pwhash_scryptsalsa208sha256_str_verify/%s/foreign-string/N=2/%s=%d(digit %d at position %d)" % (tag, field, val, dv, pos_)
+                    n += 3
+                    if lib.crypto_pwhash_scryptsalsa208sha256_str_verify(buf2, pw8, ull(8)) != 0:
+                        fails.append((key, "string %r: the correct password is rejected" % sref))
+                    if lib.crypto_pwhash_scryptsalsa208sha256_str_verify(buf2, pw8[:-1] + b"#", ull(8)) == 0:
+                        fails.append((key, "string %r: a wrong password is accepted" % sref))
+                    got = lib.crypto_pwhash_scryptsalsa208sha256_str_needs_rehash(buf2, ull(32768), sz(16777216))
+                    if got != _sc_rehash_want(1, r_, p_):
+                        fails.append((key.replace("_str_verify", "_str_needs_rehash"), "string %r: returned %d, want %d" % (sref, got, _sc_rehash_want(1, r_, p_))))
+        for field in ("N", "r", "p"):
+            for pos_ in range(1 if field == "N" else 5):
+                for dv in range(64):
+                    val = dv << (6 * pos_)
+                    N_log2, r_, p_ = (dv, 8, 1) if field == "N" else ((14, val, 1) if field == "r" else (14, 8, val))
+                    if val >= (1 << 30): continue
+                    sref = ps.scrypt7_encode(N_log2, r_, p_, salt_txt, bytes(range(32)))
+                    if ps.scrypt7_parse(sref) is None: raise AssertionError("reference does not parse its own scrypt string")
+                    buf2 = ctypes.create_string_buffer(sref.encode("latin-1"), 102)
+                    n += 1
+                    got = lib.crypto_pwhash_scryptsalsa208sha256_str_needs_rehash(buf2, ull(32768), sz(16777216))
+                    if got != _sc_rehash_want(N_log2, r_, p_):
+                        fails.append(("crypto_pwhash_scryptsalsa208sha256_str_needs_rehash/%s/foreign-string/%s digit %d at position %d" % (tag, field, dv, pos_),
+                                      "string %r (N_log2=%d r=%d p=%d): returned %d, want %d" % (sref, N_log2, r_, p_, got, _sc_rehash_want(N_log2, r_, p_))))
+    if cfg in ("", configs.NONE):
         str_family("crypto_pwhash_scryptsalsa208sha256", lambda st: lib.crypto_pwhash_scryptsalsa208sha256_str(st, pw8, ull(8), ull(32768), sz(16777216)),
                    lib.crypto_pwhash_scryptsalsa208sha256_str_verify, lib.crypto_pwhash_scryptsalsa208sha256_str_needs_rehash, 0, 0, None, is_scrypt=True)
     return tag, feats, n, fails[:25], info
